@@ -107,8 +107,12 @@ def step (d : DState) (line : String) : DState × String :=
   | "reset" :: kind :: es =>
     match es.mapM parseEntry with
     -- kinds "M" / "X": the same readers, the harness spells the empty key (key 0) as a nil slice
+    -- kind "r": the real XModel on a store, the reader `xmodelReader` models
     | some es => if kind == "m" || kind == "x" || kind == "M" || kind == "X"
-        then (⟨mkReader kind.toLower es, XState.init [], [], [], false⟩, "ok") else (d, "bad-op")
+        then (⟨mkReader kind.toLower es, XState.init [], [], [], false⟩, "ok")
+        else if kind == "r" then
+          (if es.all (fun (b, _, ver, _) => b != 0 && ver != 0) then (⟨mkReader "x" es, XState.init [], [], [], false⟩, "ok") else (d, "bad-op"))
+        else (d, "bad-op")
     | none => (d, "bad-op")
   | "utxo" :: ts =>
     match ts.mapM parseUtxoTok with
@@ -125,6 +129,12 @@ def step (d : DState) (line : String) : DState × String :=
   | ["ev", n, b] =>
     match n.toNat?, b.toNat? with
     | some n, some b => ((doX d (.event n b)).1, "ok")
+    | _, _ => (d, "bad-op")
+  -- a read fault on one row of the store: the model answers for the healthy store - a call that reports no error
+  -- has to agree with it, a call that reports the error is not compared (harness answer "-")
+  | ["fault", b, k] =>
+    match b.toNat?, k.toNat? with
+    | some _, some _ => (d, if d.flushed then "bad-op" else "ok")
     | _, _ => (d, "bad-op")
   | ["flush"] => ({ d with flushed := true }, "ok")
   | ["utxorw"] => (d, utxorwStr d.x.tok)
